@@ -308,9 +308,6 @@ def gen_column(rng, kind, n, drill):
         return pd.Series(a)
     if kind in ("str", "strnum"):
         pool = [t for t in STR_POOL if L.legal_text(t, drill)]
-        if kind == "str" and drill:
-            # keep the known drill defect (numeric-looking text next to other text) in the confirmation stream
-            pool = [t for t in pool if t in ("a", "b", "é", "日本", "x y", "a.b", "a-b", "None", "null", "#", "A" * 30, " lead", "a%20b", "\U0001F600")]
         vals = rng.sample(pool, min(card, len(pool))) + ([None] if nulls else [])
         return pd.Series(np.array([rng.choice(vals) for _ in range(n)] + [None], dtype=object)[:-1])
     if kind == "cat":
